@@ -392,6 +392,7 @@ mod tests {
             //
             ("catcode", codes::get_catcode()),
             ("count", registers::get_count()),
+            ("countdef", registers::get_countdef()),
             ("dimen", registers::get_dimen()),
             ("skip", registers::get_skip()),
             ("global", prefix::get_global()),
@@ -520,6 +521,16 @@ mod tests {
                 local_advance,
                 r"\count 1 5{\advance\count 1 8}\the\count 1",
                 "5"
+            ),
+            (
+                advance_blank_space_before_by,
+                r"\countdef\+=1 \+=1 \advance\+ by 2 \the\+",
+                "3"
+            ),
+            (
+                advance_blank_space_without_by,
+                r"\countdef\+=1 \+=1 \advance\+ 2 \the\+",
+                "3"
             ),
         ),
         recoverable_failure_tests(
